@@ -141,6 +141,11 @@ def run(payload):
         bx = tfs._blockify(x, meta)
         r["blocked_shape"] = list(map(int, bx.shape))
         back = tfs._deblockify(bx, meta)
+        if n <= 64:
+          # flat contents for the tensor-level Coq model (C06.BlockifyModel)
+          r["blocked_flat"] = [int(v) for v in np.asarray(bx).ravel()]
+          r["deblocked_shape"] = list(map(int, back.shape))
+          r["deblocked_flat"] = [int(v) for v in np.asarray(back).ravel()]
         if tuple(back.shape) != tuple(shape) or not bool(jnp.all(back == x)):
           fail("_deblockify(_blockify(x)) != x")
         # each block is the contiguous sub-tensor; blocks enumerated row-major over large axes
@@ -173,6 +178,11 @@ def run(payload):
         mx, _ = mt.update({"w": x}, mt.init({"w": p}), {"w": p})
         r["merged_shape_actual"] = list(map(int, mx["w"].shape))
         bk, _ = ut.update(mx, ut.init({"w": p}), {"w": p})
+        if int(np.asarray(mx["w"]).size) <= 64:
+          # flat contents for the tensor-level Coq model (C06.BlockifyModel)
+          r["merged_flat"] = [int(v) for v in np.asarray(mx["w"]).ravel()]
+          r["unmerged_shape"] = list(map(int, bk["w"].shape))
+          r["unmerged_flat"] = [int(v) for v in np.asarray(bk["w"]).ravel()]
         if tuple(bk["w"].shape) != tuple(shape) or not bool(jnp.all(bk["w"] == x)):
           fail("unmerge(merge(x)) != x")
         mxn = np.asarray(mx["w"])
